@@ -1,15 +1,19 @@
 #!/usr/bin/env bash
 # tools/seedverify.sh <worktree> <demo test file (relative)> <go test -run regex> <package of the demo> [extra go test flags]
 # Confirms in the seed's own worktree: the demo FAILS with the change and PASSES without it, and the change builds.
+# (No `git stash`: the stash is shared by all worktrees of a repository.)
 set -u
 WT=$1; DEMO=$2; RUN=$3; PKG=$4; shift 4
 export GOFLAGS=-mod=mod GOPROXY=off GOSUMDB=off GOTOOLCHAIN=local CGO_ENABLED=1
 cd "$WT" || exit 2
 git diff --quiet && { echo "worktree has no source change"; exit 2; }
-go build ./... || { echo "BUILD FAILS with the change"; exit 1; }
-go test -vet=off -count=1 "$@" -run "$RUN" "$PKG" > /var/tmp/seedverify.with.log 2>&1; with=$?
-git stash -q || exit 2
-go test -vet=off -count=1 "$@" -run "$RUN" "$PKG" > /var/tmp/seedverify.without.log 2>&1; without=$?
-git stash pop -q || { echo "stash pop failed"; exit 2; }
+P=$(mktemp "$WT/.seedverify.XXXXXX.diff"); git diff > "$P"
+go build ./... || { echo "BUILD FAILS with the change"; rm -f "$P"; exit 1; }
+go test -vet=off -count=1 "$@" -run "$RUN" "$PKG" > /var/tmp/seedverify.with.$$.log 2>&1; with=$?
+git apply -R "$P" || { echo "cannot revert"; exit 2; }
+go test -vet=off -count=1 "$@" -run "$RUN" "$PKG" > /var/tmp/seedverify.without.$$.log 2>&1; without=$?
+git apply "$P" || { echo "cannot re-apply"; exit 2; }
+rm -f "$P"
 echo "demo with change: exit $with (want != 0); without change: exit $without (want 0)"
-[ $with -ne 0 ] && [ $without -eq 0 ] && echo "SEED-DEMO-CONFIRMED" || { echo "SEED-DEMO-NOT-CONFIRMED"; tail -5 /var/tmp/seedverify.with.log /var/tmp/seedverify.without.log; }
+[ $with -ne 0 ] && [ $without -eq 0 ] && echo "SEED-DEMO-CONFIRMED" || { echo "SEED-DEMO-NOT-CONFIRMED"; tail -5 /var/tmp/seedverify.with.$$.log /var/tmp/seedverify.without.$$.log; }
+rm -f /var/tmp/seedverify.with.$$.log /var/tmp/seedverify.without.$$.log
